@@ -7,3 +7,17 @@ claim(
     design_ref="DESIGN.md section 4 C13",
     engine="enumeration",
 )
+claim(
+    "C01",
+    technique="Hypothesis property-based differential testing against PyTorch reference ops with a least-squares scalar fit (metamorphic: two data draws must give the same scalar)",
+    text="Generated-input search: 2.4k (quick) / 60k (thorough) calls over all 16 public functions x shapes x 4 dtypes x every hyper-parameter x constraint names; each is compared with the PyTorch op on identical tensors: same shape/dtype, residual of the one-scalar fit ~ 0, scalar > 0 and equal across two independent data draws, scalar == 1 for losses/norms/embedding, inputs bit-identical and version-unchanged after forward and backward, unsupported arguments rejected.",
+    note="PyTorch CPU ops are the trusted base; per-dtype tolerances stated in DESIGN.md section 3; sampling, not proof.",
+    design_ref="DESIGN.md section 4 C01",
+)
+claim(
+    "C02",
+    technique="Hypothesis differential testing of autograd gradients against the PyTorch reference (per-input scalar fit; metamorphic over data draws, upstream gradients and repeated calls) + direct property tests of scale_fwd/scale_bwd",
+    text="Generated-input search: for every differentiable input of every function the library gradient must be a positive scalar multiple of the reference gradient for the same upstream gradient, the scalar being identical across two data draws, two upstream draws and repeated calls; scale_fwd/scale_bwd are checked bitwise (value) / to 2 ulp (gradient) for factors in [-1e3,1e3] incl. 0 and negatives on rank 0-4 tensors of four dtypes.",
+    note="PyTorch autograd is the trusted base; low-precision dtypes only decide 'roughly the same scalar'; sampling, not proof.",
+    design_ref="DESIGN.md section 4 C02",
+)
